@@ -642,6 +642,49 @@ def doc_eq(x, y):
     return x == y
 
 
+# ---- the hypothesis of C20_patch_reproduces_json_docs, computed on the Python side ----
+
+def atoms_py(doc):
+    out = []
+    if isinstance(doc, dict):
+        for k, v in doc.items():
+            out.append(k)
+            out += atoms_py(v)
+    elif isinstance(doc, list):
+        for v in doc:
+            out += atoms_py(v)
+    else:
+        out.append(doc)
+    return out
+
+
+def in_universe(doc):
+    """representable in Base/Value.v: JSON containers, str keys, str/int/bool/None, half-integer floats"""
+    for a in atoms_py(doc):
+        if a is None or isinstance(a, (bool, int, str)):
+            continue
+        if isinstance(a, float) and a == a and abs(a) < 1e15 and (a * 2) == int(a * 2):
+            continue
+        return False
+    return True
+
+
+def json_guard_py(a, b):
+    """alias-free (no two atoms that are == but not of the same type) and no '__' key; None = outside the universe"""
+    if not (in_universe(a) and in_universe(b)):
+        return None
+    atoms = atoms_py(a) + atoms_py(b)
+    for i, x in enumerate(atoms):
+        for y in atoms[i + 1:]:
+            if type(x) is not type(y) and x is not None and y is not None and not isinstance(x, str) and not isinstance(y, str) and x == y:
+                return False
+    for doc in (a, b):
+        for k in keys_of(doc):
+            if k.startswith("__"):
+                return False
+    return True
+
+
 # ---- the direct oracle: the property statement on the implementation, no reference to the model ----
 
 def oracle_reference(a_text, b_text, keep, o):
@@ -772,7 +815,7 @@ def pair_task(args):
     rng = random.Random(seed)
     work = tempfile.mkdtemp(prefix="p%d_" % idx, dir=scratch)
     b_text = json.dumps(b_doc, indent=2) + "\n"     # never the canonical text either
-    res = {"cases": [], "fails": [], "counts": {}, "seen": [], "samples": []}
+    res = {"cases": [], "fails": [], "counts": {}, "seen": [], "samples": [], "guard_cases": []}
 
     def count(k, n=1):
         res["counts"][k] = res["counts"].get(k, 0) + n
@@ -785,6 +828,15 @@ def pair_task(args):
         shutil.rmtree(work, ignore_errors=True)
         return res
     a_loaded, b_loaded = json_loads(a_text), json_loads(b_text)
+    try:
+        guard = json_guard_py(a_loaded, b_loaded)
+    except Exception:
+        guard = None                     # e.g. type objects planted by the loader's object_hook
+    count("json_guard:" + {True: "holds", False: "fails", None: "outside_universe"}[guard])
+    if guard is not None:
+        from harness import values
+        res["guard_cases"].append(("sx_bool (json_guardsb ex_cfg %s %s)" % (values.to_coq(a_loaded), values.to_coq(b_loaded)),
+                                   guard, dict(base_case, hypothesis="json_guardsb")))
     ida = 1
     idb = 1 if doc_eq(a_loaded, b_loaded) else 2
 
@@ -801,8 +853,15 @@ def pair_task(args):
             res["fails"].append((dict(case, clause=clause, observed=o), what))
         if not any(c == "reproduces" for c, _ in fails):
             count("oracle:reproduces_ok")
-            if json.dumps(loaded, sort_keys=True, default=repr) != json.dumps(b_loaded, sort_keys=True, default=repr):
+            typed_same = json.dumps(loaded, sort_keys=True, default=repr) == json.dumps(b_loaded, sort_keys=True, default=repr)
+            if not typed_same:
                 count("note:equal_but_not_type_identical(1==1.0==True)")
+            if guard is True:
+                # conclusion of C20_patch_reproduces_json_docs: same JSON value, up to key order
+                count("oracle:json_guard_holds_typed_checked")
+                if not typed_same:
+                    res["fails"].append((dict(case, clause="reproduces_typed", observed=o),
+                                         "alias-free JSON documents: after patch A is ==-equal to B but not the same JSON value (types differ)"))
         if new_text is None:
             new_text = o["A"]
             pos = dumps_placement(o["trace"])
@@ -962,6 +1021,23 @@ MATCHERS = {"C20-TYPEHOOK": m_typehook, "C20-K5-QUOTES": m_both_quotes, "C20-K6-
 # --------------------------------------------------------------------------
 
 HEADER = "From DD Require Import Cli.FsModel Cli.FsShow.\nLocal Open Scope Z_scope."
+GUARD_HEADER = ("From DD Require Import Base.PyStr Base.Value Diff.DiffModel Delta.DeltaExamples Cli.JsonDocs.\n"
+                "Local Open Scope Z_scope.")
+
+
+def alias_witness(ctx):
+    """C20_json_alias_refuted replayed on the real CLI: [1] -> [1.0] leaves the int in place"""
+    sys.path.insert(0, core.REPO)
+    _quiet()
+    a_text, b_text = "[1]\n ", "[1.0]\n"
+    rc, delta_bytes, dexc, _ = run_diff(a_text, b_text, ctx.scratch)
+    o = run_patch(a_text, b_text, delta_bytes, False, True, {}, False, ctx.scratch) if rc == 0 else None
+    ctx.evaluations += 1
+    ok = o is not None and o["cli"] == ["exit", 0] and o["A"] is not None and json.loads(o["A"]) == [1] and isinstance(json.loads(o["A"])[0], int)
+    ctx.note("alias_witness", {"A": a_text, "B": b_text, "A_after_patch": o and o["A"], "as_the_model_says": ok})
+    if not ok:
+        ctx.break_("correspondence", {"name": "C20_json_alias_refuted", "meaning": "the implementation no longer behaves as the refutation witness says ([1] -> [1.0] should leave [1])",
+                                      "observed": o and {"A": o["A"], "cli": o["cli"]}})
 
 
 def collect(ctx, results, name):
@@ -1013,6 +1089,9 @@ def run(ctx):
         results = pool.map(pair_task, tasks, chunksize=1)
         rd = r_direct.get()
     collect(ctx, results, "c20_cli")
+    gcases = [g for r in results for g in r.get("guard_cases", [])]
+    ctx.coq_cases("c20_json_guards", GUARD_HEADER, gcases, shard=150, label="json_guardsb on the generated documents")
+    alias_witness(ctx)
     collect(ctx, [rd], "c20_save_direct")
     ctx.note("fault_points", ["%s/%s" % p for p in POINTS])
     ctx.note("document_pairs", {"with_fault_schedules": len(pairs), "round_trip_only": n_ref})
